@@ -194,11 +194,10 @@ def _check_pair_ops(res, N, A, B, b1, s1, k1, b2, s2, k2, derived=None):
             continue
         if not pm:
             res.note(op, "parent-mismatch")
-            if k1 != "none":
-                if o[0] == "ok" or not isinstance(o[2], ParentException):
-                    res.deviation(op, case, o[1], "MismatchedParentException", sig=f"{op}-parent-mismatch")
-            elif o[0] == "exc" and not lib.is_documented_exc(o[2]):
-                res.deviation(op, case, o[1], "value or documented exception", sig=f"{op}-internal-error")
+            # "commutative; raises exception if locations cannot be combined": a mismatch is refused whichever side
+            # lacks the parent (the parentless-left order used to return an un-merged compound of overlapping blocks)
+            if o[0] == "ok" or not isinstance(o[2], ParentException):
+                res.deviation(op, case, lib.canon_loc(o[1]) if o[0] == "ok" else o[1], "MismatchedParentException", sig=f"{op}-parent-mismatch")
             continue
         res.note(op, "ok")
         if op == "union":
